@@ -18,6 +18,8 @@ pub struct ERoot {
     pub hooks: usize,
     /// sub-second part of the genesis time
     pub genesis_frac_ns: u64,
+    /// genesis at time 0 (the configuration default), i.e. long before the first block
+    pub genesis_zero: bool,
 }
 
 pub struct EpochScn {
@@ -79,7 +81,7 @@ impl Scenario for EpochScn {
     }
     fn setup(&self, root: usize, w: &mut World) -> (EH, EG) {
         let r = &self.roots[root];
-        let genesis_ns = GENESIS_TIME_NS + GEN_OFFSET + r.genesis_frac_ns;
+        let genesis_ns = if r.genesis_zero { 0 } else { GENESIS_TIME_NS + GEN_OFFSET + r.genesis_frac_ns };
         if r.distributor {
             let mut o = HubOpts::basic(genesis_ns, 2);
             o.duration_ns = r.duration_ns;
@@ -118,13 +120,13 @@ impl Scenario for EpochScn {
         let mut v = vec![];
         let now = w.time_ns();
         // time targets relative to genesis and to the next boundary; only forward moves
-        let boundary = if g.start_ns == 0 { h.genesis_ns } else { g.start_ns + g.duration_ns };
+        let boundary = if h.root.distributor && g.id == 0 { h.genesis_ns } else { g.start_ns + g.duration_ns };
         let targets: Vec<(&str, u64)> = vec![
-            ("genesis-duration-1ns", h.genesis_ns - g.duration_ns - 1),
-            ("genesis-duration", h.genesis_ns - g.duration_ns),
-            ("genesis-1ns", h.genesis_ns - 1),
+            ("genesis-duration-1ns", h.genesis_ns.saturating_sub(g.duration_ns + 1)),
+            ("genesis-duration", h.genesis_ns.saturating_sub(g.duration_ns)),
+            ("genesis-1ns", h.genesis_ns.saturating_sub(1)),
             ("genesis", h.genesis_ns),
-            ("boundary-1ns", boundary - 1),
+            ("boundary-1ns", boundary.saturating_sub(1)),
             ("boundary", boundary),
             ("boundary+1ns", boundary + 1),
             ("boundary+2.5d", boundary + g.duration_ns * 5 / 2),
@@ -153,13 +155,13 @@ impl Scenario for EpochScn {
     fn step(&self, w: &mut World, h: &EH, g: &mut EG, a: &EAct, cx: &mut Cx) {
         match a {
             EAct::SetTime { kind } => {
-                let boundary = if g.start_ns == 0 { h.genesis_ns } else { g.start_ns + g.duration_ns };
+                let boundary = if h.root.distributor && g.id == 0 { h.genesis_ns } else { g.start_ns + g.duration_ns };
                 let t = match kind.as_str() {
-                    "genesis-duration-1ns" => h.genesis_ns - g.duration_ns - 1,
-                    "genesis-duration" => h.genesis_ns - g.duration_ns,
-                    "genesis-1ns" => h.genesis_ns - 1,
+                    "genesis-duration-1ns" => h.genesis_ns.saturating_sub(g.duration_ns + 1),
+                    "genesis-duration" => h.genesis_ns.saturating_sub(g.duration_ns),
+                    "genesis-1ns" => h.genesis_ns.saturating_sub(1),
                     "genesis" => h.genesis_ns,
-                    "boundary-1ns" => boundary - 1,
+                    "boundary-1ns" => boundary.saturating_sub(1),
                     "boundary" => boundary,
                     "boundary+1ns" => boundary + 1,
                     _ => boundary + g.duration_ns * 5 / 2,
